@@ -60,7 +60,7 @@ func counting(n int) []byte {
 
 func ints(pos int, max uint64, extra ...uint64) []wire.Val {
 	vs := []uint64{uint64(pos+1) & max, 0, max}
-	for _, e := range []uint64{255, 256, 65535, 65536, 1 << 31, 1 << 32, 1 << 47} {
+	for _, e := range []uint64{127, 128, 255, 256, 32767, 32768, 65535, 65536, 1<<31 - 1, 1 << 31, 1 << 32, 1 << 47, 1<<63 - 1} {
 		if e < max {
 			vs = append(vs, e)
 		}
